@@ -38,18 +38,22 @@ func VerifC08() {
 	var peered []string
 	for i := 0; i < n; i++ {
 		c := &verifCand{id: store.NodeID(verifapi.NodeID(1 + i))}
-		c.isHost = verifapi.Bool(fmt.Sprint("ishost", i))
+		simple := verifapi.Param("simple", 0) == 1 // every candidate is a fresh, connected, unpeered host: only the kinds vary
+		c.isHost = simple || verifapi.Bool(fmt.Sprint("ishost", i))
 		c.kind = []string{"geth", "parity"}[verifapi.Choose(fmt.Sprint("kind", i), 2)]
 		// LastSeen relative to the activity window (now-120s): fresh, stale, or exactly on the edge
 		age := verifapi.Dur(fmt.Sprint("age", i))
 		verifapi.Assume(age >= 0)
 		verifapi.Assume(age < 1000000000000)
+		if simple {
+			verifapi.Assume(age == 1000000000)
+		}
 		c.fresh = age < time.Duration(store.ExpireInterval)
 		c.onEdge = age == time.Duration(store.ExpireInterval)
-		c.connected = verifapi.Bool(fmt.Sprint("connected", i))
+		c.connected = simple || verifapi.Bool(fmt.Sprint("connected", i))
 		// (a legacy vipnode_client request re-registers the node first; whether the
 		// tracked peers survive that is a driver difference reported under C12)
-		c.peered = verifapi.Param("legacy_client", 0) == 0 && verifapi.Bool(fmt.Sprint("peered", i))
+		c.peered = !simple && verifapi.Param("legacy_client", 0) == 0 && verifapi.Bool(fmt.Sprint("peered", i))
 		db.SetNode(store.Node{ID: c.id, IsHost: c.isHost, Kind: c.kind, LastSeen: now.Add(-age), URI: "enode://" + string(c.id) + "@192.0.2.1:30303"})
 		c.host = &VerifHost{Name: fmt.Sprint("h", i), Addr: "192.0.2.1:1", Behaviours: verifapi.Param("behaviours", 3)}
 		if c.connected {
@@ -114,7 +118,9 @@ func VerifC08() {
 			eligible++
 			if acked > 0 {
 				ackedEligible++
-			} else {
+			} else if c.host.Behaviours != 1 {
+				// it was asked and did not acknowledge - or was never asked, in which case a stub that may
+				// refuse says nothing; a stub that always acknowledges (behaviours=1) counts as willing
 				allGood = false
 			}
 		}
@@ -143,6 +149,9 @@ func VerifC08() {
 	if err != nil {
 		verifapi.Assert(len(hosts) == 0, "c08.error-means-no-hosts")
 		verifapi.Assert(ackedEligible == 0 || want == 0, "c08.error-only-when-no-host-could-be-provided")
+	}
+	if verifapi.Param("behaviours", 3) == 1 && eligible > 0 && want > 0 {
+		verifapi.Assert(err == nil, "c08.error-only-when-no-host-could-be-provided")
 	}
 	if allGood && activeOfKind == eligible && want > 0 {
 		exp := want
